@@ -109,3 +109,62 @@ def shrink_bytes_candidates(data, limit=24):
                 break
         size //= 2
     return out
+
+
+SETTINGS = [
+    "plugins.md013.line_length=$#40",
+    "plugins.md013.code_blocks=$!False",
+    "plugins.md007.indent=$#4",
+    "plugins.md003.style=atx",
+    "plugins.md003.style=setext",
+    "plugins.md004.style=asterisk",
+    "plugins.md004.style=dash",
+    "plugins.md029.style=one",
+    "plugins.md029.style=ordered",
+    "plugins.md046.style=fenced",
+    "plugins.md046.style=indented",
+    "plugins.md048.style=tilde",
+    "plugins.md048.style=backtick",
+    "plugins.md035.style=---",
+    "plugins.md024.siblings_only=$!True",
+    "plugins.md025.level=$#2",
+    "plugins.md009.br_spaces=$#0",
+    "plugins.md009.strict=$!True",
+    "plugins.md010.code_blocks=$!False",
+    "plugins.md012.maximum=$#2",
+    "plugins.md026.punctuation=.,;",
+    "plugins.md030.ul_single=$#2",
+    "plugins.md044.names=ParserError,JavaScript,Title",
+    "plugins.md041.level=$#2",
+    "plugins.md033.allowed_elements=b,div",
+    "extensions.front-matter.enabled=$!True",
+    "extensions.markdown-strikethrough.enabled=$!True",
+    "extensions.markdown-task-list-items.enabled=$!True",
+    "extensions.markdown-extended-autolinks.enabled=$!True",
+    "extensions.markdown-disallow-raw-html.enabled=$!True",
+    "extensions.linter-pragmas.enabled=$!False",
+]
+
+DISABLE_POOL = ["md009", "md010", "md012", "md013", "md022", "md024", "md025", "md031", "md032", "md041", "md047", "md001", "md003", "md004", "md029", "md033"]
+ENABLE_POOL = ["md002", "md006", "pml100", "pml101"]
+
+
+def draw_config_flags(rng, max_settings=2, allow_scheme=True):
+    """Global command-line flags that configure rules/extensions/scheme
+    (no diagnostics flags)."""
+    flags = []
+    roll = rng.random()
+    if roll < 0.35:
+        flags += ["-d", ",".join(rng.sample(DISABLE_POOL, rng.randint(1, 4)))]
+    elif roll < 0.50:
+        flags += ["-e", ",".join(rng.sample(ENABLE_POOL, rng.randint(1, 3)))]
+    elif roll < 0.58:
+        flags += ["-d", ",".join(rng.sample(DISABLE_POOL, 2)), "-e", rng.choice(ENABLE_POOL)]
+    for _ in range(rng.randint(0, max_settings)):
+        if rng.random() < 0.6:
+            flags += ["--set", rng.choice(SETTINGS)]
+    scheme = "default"
+    if allow_scheme and rng.random() < 0.3:
+        scheme = rng.choice(["default", "minimal"])
+        flags += ["--return-code-scheme", scheme]
+    return flags, scheme
